@@ -2,21 +2,16 @@ import Zrnt.Schema.Facts
 import Mathlib.Tactic.Ring
 import Mathlib.Tactic.Linarith
 /-! Soundness of the polynomial normal form used to compare length/limit expressions for all configurations,
-for expressions without division (every list limit and vector length of the schema; the only quotients in the
-schema are byte lengths of bitvectors and the sync-subcommittee size). -/
+including quotients (atoms that keep their normalised numerator and denominator). -/
 namespace Zrnt.Proofs.SSZ
 open Zrnt.Schema Zrnt.Schema.Facts
 
-def noDiv : LExpr → Bool
-  | .lit _ => true
-  | .const _ => true
-  | .mul a b | .add a b => noDiv a && noDiv b
-  | .div _ _ => false
+/-- value of an atom under a configuration -/
+def atomVal (c : Config) : Atom → Nat
+  | .c n => c n
+  | .q a b => a.eval c / b.eval c
 
-/-- value of an atom: atoms of division-free expressions are `2 * name` -/
-def atomVal (c : Config) (a : Nat) : Nat := c (a / 2)
-
-def prodAtoms (c : Config) : List Nat → Nat
+def prodAtoms (c : Config) : List Atom → Nat
   | [] => 1
   | a :: r => atomVal c a * prodAtoms c r
 
@@ -26,7 +21,7 @@ def evalPoly (c : Config) : Poly → Nat
   | [] => 0
   | m :: r => evalMono c m + evalPoly c r
 
-theorem prodAtoms_insertSorted (c : Config) (a : Nat) (l : List Nat) :
+theorem prodAtoms_insertSorted (c : Config) (a : Atom) (l : List Atom) :
     prodAtoms c (insertSorted a l) = atomVal c a * prodAtoms c l := by
   induction l with
   | nil => simp [insertSorted, prodAtoms]
@@ -36,7 +31,7 @@ theorem prodAtoms_insertSorted (c : Config) (a : Nat) (l : List Nat) :
     · simp [prodAtoms]
     · simp only [prodAtoms, ih]; ring
 
-theorem prodAtoms_mulAtoms (c : Config) (xs ys : List Nat) :
+theorem prodAtoms_mulAtoms (c : Config) (xs ys : List Atom) :
     prodAtoms c (mulAtoms xs ys) = prodAtoms c xs * prodAtoms c ys := by
   unfold mulAtoms
   induction xs generalizing ys with
@@ -102,30 +97,56 @@ theorem evalPoly_mulPoly (c : Config) (p q : Poly) : evalPoly c (mulPoly p q) = 
   unfold mulPoly
   rw [evalPoly_mulOuter]; simp [evalPoly]
 
-/-- the normal form denotes the expression (division-free expressions) -/
-theorem evalPoly_polyNF (c : Config) : ∀ e : LExpr, noDiv e = true → evalPoly c (polyNF e) = e.eval c
-  | .lit n, _ => by
+theorem reifyAtoms_eval (c : Config) (xs : List Atom) : (reifyAtoms xs).eval c = prodAtoms c xs := by
+  induction xs with
+  | nil => simp [reifyAtoms, prodAtoms, LExpr.eval]
+  | cons a r ih =>
+    cases a <;> simp [reifyAtoms, reifyAtom, prodAtoms, atomVal, LExpr.eval, ih]
+
+theorem reify_eval (c : Config) (p : Poly) : (reify p).eval c = evalPoly c p := by
+  induction p with
+  | nil => simp [reify, evalPoly, LExpr.eval]
+  | cons m r ih => simp [reify, evalPoly, evalMono, LExpr.eval, ih, reifyAtoms_eval]
+
+/-- the normal form denotes the expression -/
+theorem evalPoly_polyNF (c : Config) : ∀ e : LExpr, evalPoly c (polyNF e) = e.eval c
+  | .lit n => by
     simp only [polyNF]
     split
     · rename_i h; have : n = 0 := by simpa using h
       simp [evalPoly, LExpr.eval, this]
     · simp [evalPoly, evalMono, prodAtoms, LExpr.eval]
-  | .const s, _ => by
+  | .const s => by
     simp [polyNF, evalPoly, evalMono, prodAtoms, atomVal, LExpr.eval]
-  | .mul a b, h => by
-    simp only [noDiv, Bool.and_eq_true] at h
-    simp only [polyNF, evalPoly_mulPoly, evalPoly_polyNF c a h.1, evalPoly_polyNF c b h.2, LExpr.eval]
-  | .add a b, h => by
-    simp only [noDiv, Bool.and_eq_true] at h
-    simp only [polyNF, evalPoly_addPoly, evalPoly_polyNF c a h.1, evalPoly_polyNF c b h.2, LExpr.eval]
-  | .div _ _, h => by simp [noDiv] at h
+  | .mul a b => by
+    simp only [polyNF, evalPoly_mulPoly, evalPoly_polyNF c a, evalPoly_polyNF c b, LExpr.eval]
+  | .add a b => by
+    simp only [polyNF, evalPoly_addPoly, evalPoly_polyNF c a, evalPoly_polyNF c b, LExpr.eval]
+  | .div a b => by
+    have ha := evalPoly_polyNF c a
+    have hb := evalPoly_polyNF c b
+    simp only [polyNF, LExpr.eval]
+    split
+    · rename_i x y h1 h2
+      rw [h1] at ha; rw [h2] at hb
+      simp only [evalPoly, evalMono, prodAtoms, Nat.mul_one, Nat.add_zero] at ha hb
+      split
+      · rename_i hz
+        have : x / y = 0 := by simpa using hz
+        simp [evalPoly, ← ha, ← hb, this]
+      · simp [evalPoly, evalMono, prodAtoms, ← ha, ← hb]
+    · simp [evalPoly, evalMono, prodAtoms, atomVal, reify_eval, ha, hb]
 
-/-- **Soundness of the limit comparison**: division-free expressions with equal normal forms are equal under
-every configuration. -/
-theorem sameLen_sound (a b : LExpr) (ha : noDiv a = true) (hb : noDiv b = true) (h : sameLen a b = true)
-    (c : Config) : a.eval c = b.eval c := by
+/-- **Soundness of the limit comparison**: expressions with equal normal forms are equal under every configuration. -/
+theorem sameLen_sound (a b : LExpr) (h : sameLen a b = true) (c : Config) : a.eval c = b.eval c := by
   unfold sameLen at h
   simp only [Bool.and_eq_true, beq_iff_eq] at h
-  rw [← evalPoly_polyNF c a ha, ← evalPoly_polyNF c b hb, h.1.1]
+  rw [← evalPoly_polyNF c a, ← evalPoly_polyNF c b, h.1.1]
+
+theorem isLit_sound (e : LExpr) (n : Nat) (h : isLit e n = true) (c : Config) : e.eval c = n := by
+  unfold isLit at h
+  have := beq_iff_eq.mp h
+  rw [← evalPoly_polyNF c e, this, evalPoly_polyNF]
+  rfl
 
 end Zrnt.Proofs.SSZ
